@@ -33,17 +33,18 @@ type Msg struct {
 }
 
 type Case struct {
-	Msgs      []Msg       // With(k, v, level) calls in order (same key overwrites)
-	Via       string      `json:",omitempty"` // how the redirect names its target: "" = To(path) | route = Route(name) | routeq = Route(name, Queries) | back = Back(fallback) without Referer
-	Input     [][2]string `json:",omitempty"` // WithInput(): old input fields
-	InputForm bool        `json:",omitempty"` // fields sent as form body (POST) instead of query
-	Status    int         `json:",omitempty"`
-	Strict    bool        `json:",omitempty"` // replay with the strict (RFC 6265 cookie-octet) client model
-	GoPath    string      `json:",omitempty"` // path of the redirecting handler ("" = /go)
-	NextRedir bool        `json:",omitempty"` // the consuming handler answers with a redirect of its own (without messages)
-	NextClear bool        `json:",omitempty"` // the consuming handler ends with c.ClearCookie() - "forget every cookie of this client"
-	NextChain bool        `json:",omitempty"` // ... and that redirect attaches a message of its own (a chain of flash redirects)
-	NextPath  string      `json:",omitempty"` // path of the consuming handler ("" = /next); nested paths have a default cookie path other than "/"
+	Msgs       []Msg       // With(k, v, level) calls in order (same key overwrites)
+	Via        string      `json:",omitempty"` // how the redirect names its target: "" = To(path) | route = Route(name) | routeq = Route(name, Queries) | back = Back(fallback) without Referer
+	Input      [][2]string `json:",omitempty"` // WithInput(): old input fields
+	InputForm  bool        `json:",omitempty"` // fields sent as form body (POST) instead of query
+	Status     int         `json:",omitempty"`
+	Strict     bool        `json:",omitempty"` // replay with the strict (RFC 6265 cookie-octet) client model
+	GoPath     string      `json:",omitempty"` // path of the redirecting handler ("" = /go)
+	NextRedir  bool        `json:",omitempty"` // the consuming handler answers with a redirect of its own (without messages)
+	NextMethod string      `json:",omitempty"` // method of the request that presents the cookie ("" = GET)
+	NextClear  bool        `json:",omitempty"` // the consuming handler ends with c.ClearCookie() - "forget every cookie of this client"
+	NextChain  bool        `json:",omitempty"` // ... and that redirect attaches a message of its own (a chain of flash redirects)
+	NextPath   string      `json:",omitempty"` // path of the consuming handler ("" = /next); nested paths have a default cookie path other than "/"
 }
 
 func (c Case) goPath() string {
@@ -123,7 +124,7 @@ func newApp(c Case, s *seen) *fiber.App {
 	}
 	app.Get(c.goPath(), goH)
 	app.Post(c.goPath(), goH)
-	app.Get(c.nextPath(), func(ctx fiber.Ctx) error {
+	nextH := func(ctx fiber.Ctx) error {
 		s.msgs, s.inputs = nil, nil
 		if ctx.Query("verifparse") == "1" {
 			fiber.VerifParseFlash(ctx) // in-process request: no raw header block, the request handler did not look for the cookie
@@ -147,7 +148,11 @@ func newApp(c Case, s *seen) *fiber.App {
 			return r.To("/done")
 		}
 		return ctx.SendString("next")
-	}).Name("next")
+	}
+	app.Get(c.nextPath(), nextH).Name("next")
+	// a method-preserving redirect (307/308) makes the client repeat its POST or PUT at the target
+	app.Post(c.nextPath(), nextH)
+	app.Put(c.nextPath(), nextH)
 	app.Get("/done", func(ctx fiber.Ctx) error {
 		s.msgs, s.inputs = nil, nil
 		for _, m := range ctx.Redirect().Messages() {
@@ -302,7 +307,11 @@ func check(c Case) vk.Verdict {
 		return checkInProcess(c, wantMsgs, wantInputs)
 	}
 	ck := [][2]string{{"Cookie", "fiber_flash=" + string(val)}}
-	out2, err := vk.Wire(app, vk.Req("GET", c.nextPath(), ck, nil))
+	m2 := "GET"
+	if c.NextMethod != "" {
+		m2 = c.NextMethod
+	}
+	out2, err := vk.Wire(app, vk.Req(m2, c.nextPath(), ck, []byte{}))
 	if err != nil {
 		return vk.Failf("request 2: %v", err)
 	}
@@ -518,7 +527,8 @@ func genCase(t *rapid.T) Case {
 	c := Case{Status: rapid.SampledFrom([]int{0, 0, 301, 303, 307}).Draw(t, "status"), Strict: rapid.IntRange(0, 9).Draw(t, "strict") == 0,
 		NextRedir: rapid.IntRange(0, 3).Draw(t, "nextredir") == 0, NextChain: rapid.Bool().Draw(t, "nextchain"),
 		GoPath: rapid.SampledFrom([]string{"", "", "/area/go", "/a/b/c/go"}).Draw(t, "gopath"), NextPath: rapid.SampledFrom([]string{"", "", "/app/next/deep", "/users/42/edit"}).Draw(t, "nextpath"),
-		Via: rapid.SampledFrom([]string{"", "", "route", "routeq", "back"}).Draw(t, "via"), NextClear: rapid.IntRange(0, 4).Draw(t, "nextclear") == 0}
+		Via: rapid.SampledFrom([]string{"", "", "route", "routeq", "back"}).Draw(t, "via"), NextClear: rapid.IntRange(0, 4).Draw(t, "nextclear") == 0,
+		NextMethod: rapid.SampledFrom([]string{"", "", "", "POST", "PUT"}).Draw(t, "nextmethod")}
 	n := rapid.IntRange(0, 5).Draw(t, "nmsgs")
 	for i := 0; i < n; i++ {
 		m := Msg{K: genStr(t, "key"), V: genStr(t, "val")}
